@@ -41,7 +41,7 @@ def gen_spec(seed: int, idx: int, tier: str):
         inp["tags"] = list(inp.get("tags", [])) + ["crlf"]
     spec = {"files": {}, "decoys": {}, "procs": [], "prop": PROP, "idx": idx}
     cliworld.place_inputs(rng, [inp], spec)
-    cliworld.add_decoys(rng, spec, 0.4)
+    cliworld.add_decoys(rng, spec, 0.4, ["p0"])
     mode = "channels" if (rng.random() < 0.2 and inp.get("text") is not None and inp["kind"] not in ("missing", "dir")) else "single"
     spec["mode"] = mode
     if mode == "single":
@@ -80,6 +80,7 @@ def gen_sweep_spec(seed: int, q: int, idx: int):
     inp.update(name="p0", kind="ok")
     spec = {"files": {}, "decoys": {}, "procs": [], "prop": PROP, "idx": idx, "mode": "single", "sweep": q}
     cliworld.place_inputs(rng, [inp], spec)
+    cliworld.add_decoys(rng, spec, 0.5, ["p0"])
     ps = cliworld.make_proc(rng, inp, 0)
     spec["procs"].append(ps)
     spec.update(policy="seq", listing="perm", collide=False, name_salt=b % 4, clock_jumps=False, t0=procworld.T0, tz=None)
